@@ -11,7 +11,7 @@ VERIF = os.path.dirname(os.path.dirname(os.path.abspath(__file__)))
 REPO = os.environ.get("VERIF_REPO", "/repo")
 CONTRACTS = os.path.join(VERIF, "contracts")
 EVIDENCE = os.path.join(VERIF, "evidence")
-REPLAY = os.path.join(VERIF, "replay")
+REPLAY = os.environ.get("VERIF_REPLAY_DIR") or os.path.join(VERIF, "replay")
 SCRATCH_ROOT = os.environ.get("VERIF_SCRATCH", "/var/tmp")
 SRC_REL = "sentinel-core/src"
 
